@@ -452,6 +452,31 @@ func c06Gen(tier string, rng *rand.Rand, emit func(interface{})) {
 			}
 		}
 	}
+	// (b5) round 3 (hK): P within 1e-12 of 0 or 1 at LARGE N, where the exact reference is out of reach
+	// (N*e bits for P = a/2^e). Check/C06.v switches to its PROVED enclosure (Bernoulli + "pmf >= 0, sums
+	// to 1": every probability and partial sum inside an interval of width N(N-1)m^2 <= 1e-12, m = min(P,1-P);
+	// Proofs/C06Encl.v) when N*e > 9000, so these cases cost nothing. This closes the residue of seeded
+	// C06-6: an end-point threshold eps in [1e-13, 9.1e-13) inside BetaInc shows as an error N*eps > 1e-10
+	// only for N > 110..1000. P = 1e-13, 2e-13, 5e-13 and 1 minus them at N = 100, 300, 1000, with both float
+	// neighbours at N = 1000; P = 2^-j and 1-2^-j, j = 30..44, at N = 1000 (and 600); k at both ends.
+	for _, q := range []float64{1e-13, 2e-13, 5e-13} {
+		for _, c := range []float64{q, 1 - q} {
+			for _, n := range []int{100, 300, 1000} {
+				emit(c06Case{Op: 0, N: n, P: F64(c), Ks: endKs(n)})
+			}
+			for _, p := range []float64{math.Nextafter(c, 0), math.Nextafter(c, 1)} {
+				emit(c06Case{Op: 0, N: 1000, P: F64(p), Ks: endKs(1000)})
+			}
+		}
+	}
+	for j := 30; j <= 44; j++ {
+		for _, p := range []float64{math.Ldexp(1, -j), 1 - math.Ldexp(1, -j)} {
+			emit(c06Case{Op: 0, N: 1000, P: F64(p), Ks: endKs(1000)})
+			if thorough || j%2 == 0 {
+				emit(c06Case{Op: 0, N: 600, P: F64(p), Ks: endKs(600)})
+			}
+		}
+	}
 	// (b4) ONE-PROCESS HISTORIES (seeded C06-7 class: a package-level cache of a per-distribution term
 	// under a lossy key, e.g. Lchoose(N,Draws) keyed N<<9|Draws, is wrong only for a distribution evaluated
 	// AFTER a colliding one in the same process). Every case of a group evaluates the other members of its
